@@ -1,6 +1,12 @@
+pub mod dir;
 pub mod hist;
+#[cfg(feature = "likely")]
+pub mod likelyeng;
 pub mod parse;
 pub mod subtags;
+#[cfg(feature = "likely")]
+pub mod tables;
+pub mod universe;
 
 use crate::mon::{Ctx, Fail};
 
@@ -26,9 +32,20 @@ pub fn engines() -> Vec<Engine> {
         Engine { name: "c03", prop: "C03", run: parse::run_c03, replay_bytes: Some(parse::c03_check), replay_json: None },
         Engine { name: "c04", prop: "C04", run: hist::run_c04, replay_bytes: Some(parse::c04_check), replay_json: Some(hist::c04_replay_json) },
         Engine { name: "c05", prop: "C05", run: hist::run_c05, replay_bytes: Some(parse::c05_check), replay_json: Some(hist::c05_replay_json) },
+        #[cfg(feature = "likely")]
+        Engine { name: "c06", prop: "C06", run: likelyeng::run_c06, replay_bytes: None, replay_json: Some(likelyeng::c06_replay) },
+        #[cfg(feature = "likely")]
+        Engine { name: "c07", prop: "C07", run: likelyeng::run_c07, replay_bytes: None, replay_json: Some(likelyeng::c07_replay) },
+        #[cfg(feature = "likely")]
+        Engine { name: "c08", prop: "C08", run: likelyeng::run_c08, replay_bytes: None, replay_json: Some(likelyeng::c08_replay) },
+        #[cfg(feature = "likely")]
+        Engine { name: "likely_miri", prop: "C06", run: likelyeng::run_likely_miri, replay_bytes: None, replay_json: Some(likelyeng::c07_replay) },
         Engine { name: "c09", prop: "C09", run: parse::run_c09, replay_bytes: Some(parse::c09_check_masks), replay_json: Some(c09_replay_json) },
         Engine { name: "c10", prop: "C10", run: hist::run_c10, replay_bytes: None, replay_json: Some(hist::c10_replay) },
         Engine { name: "c13", prop: "C13", run: parse::run_c13, replay_bytes: Some(parse::c13_check), replay_json: None },
+        Engine { name: "c14", prop: "C14", run: dir::run_c14, replay_bytes: None, replay_json: Some(dir::c14_replay) },
         Engine { name: "c15", prop: "C15", run: subtags::run_c15, replay_bytes: Some(subtags::c15_replay), replay_json: None },
+        #[cfg(feature = "likely")]
+        Engine { name: "c18", prop: "C18", run: tables::run_c18, replay_bytes: None, replay_json: None },
     ]
 }
